@@ -234,6 +234,44 @@ func genSecretCase(r *lib.Rng, n int, e *acc.Env, k keyChoice) Item {
 		H: &acc.Case{Name: name, T0: now, Ops: ops, Cfg: e.Cfg, Mode: "mock"}}
 }
 
+// ---------------------------------------------------------------- environment fault: the random source fails once
+
+var guessableCodes = []string{"00000000-0000-0000-0000-000000000000", "ffffffff-ffff-ffff-ffff-ffffffffffff", "0", "null", "undefined"}
+
+// genEntropy: two session requests are served while the random source fails; afterwards an outsider presents the
+// codes anybody can think of; then an ordinary request and join show the relay still works.
+func genEntropy(e *acc.Env, name string) Item {
+	now := time.Now().Unix()
+	a, b := "E"+name, "F"+name
+	ses := func(topic string) *acc.Req {
+		au := acc.SessionBearer(e.Cfg.Host, now, topic, "bke-"+topic, []string{"read", "write"})
+		au.Claims["exp"] = now + 300
+		q := acc.Req{Route: "session", ID: topic, Auth: au, Label: "good"}
+		q.Method, q.Target = acc.TargetFor("session", topic, nil, nil)
+		return &q
+	}
+	ops := []acc.Op{{K: "faultreq", Req: ses(a)}}
+	it := Item{Kind: "relay", Attempt: map[string]string{}}
+	ua := 3
+	try := func(topic, lit string) {
+		ops = append(ops, acc.Op{K: "ws", Ws: &acc.Ws{Path: "/session/" + topic, Decoded: "/session/" + topic,
+			Code: acc.CodeRef{Kind: "literal", Lit: lit}, UA: ua, Label: "guessable-code"}})
+		it.Attempt[strconv.Itoa(ua)] = "guessable-code"
+		ua++
+	}
+	for _, g := range guessableCodes {
+		try(a, g)
+	}
+	try(a, a)
+	ops = append(ops, acc.Op{K: "faultreq", Req: ses(b)})
+	try(b, guessableCodes[0])
+	ops = append(ops, acc.Op{K: "req", Req: ses(a)})
+	ops = append(ops, acc.Op{K: "ws", Ws: &acc.Ws{Path: "/session/" + a, Decoded: "/session/" + a, Code: acc.CodeRef{Kind: "op", Op: len(ops) - 1}, UA: ua, Label: "right"}})
+	it.Attempt[strconv.Itoa(ua)] = "right"
+	it.H = &acc.Case{Name: name, T0: now, Ops: ops, Cfg: e.Cfg, Mode: "real"}
+	return it
+}
+
 // ---------------------------------------------------------------- expiry binding
 
 // genExpiry: three tokens with the same exp a few seconds ahead - one fresh (nbf = now-1), two whose validity
@@ -333,8 +371,9 @@ var prefixScopes = func() (out []struct {
 	prefix string
 	scopes []string
 }) {
-	for _, p := range []string{"shell", "Session", "other", "session ", ""} {
-		for _, sc := range [][]string{{"host"}, {"client"}, {"host", "client"}, {"read"}, {"read", "write"}, {"Read", "WRITE"}} {
+	for _, p := range []string{"shell", "Session", "other", "session ", "", "\uff53\uff45\uff53\uff53\uff49\uff4f\uff4e"} {
+		for _, sc := range [][]string{{"host"}, {"client"}, {"host", "client"}, {"read"}, {"read", "write"}, {"Read", "WRITE"},
+			{"\uff52\uff45\uff41\uff44", "\uff57\uff52\uff49\uff54\uff45"}, {"read ", " write"}, {"\u02b3ead", "w\u02b3ite"}} {
 			out = append(out, struct {
 				prefix string
 				scopes []string
@@ -380,7 +419,8 @@ func genRelay(r *lib.Rng, n int, e *acc.Env, force int) Item {
 	sX.Label = "mutated"
 	pa, pd := wsPath("right", a, b)
 	ops := []acc.Op{{K: "req", Req: &sP}, {K: "req", Req: &sC}, {K: "req", Req: &sA}, {K: "req", Req: &sB}, {K: "req", Req: &sX},
-		{K: "ws", Ws: &acc.Ws{Path: pa, Decoded: pd, Code: acc.CodeRef{Kind: "op", Op: 0}, UA: 1, Label: "peer"}},
+		{K: "ws", Ws: &acc.Ws{Path: pa, Decoded: pd, Code: acc.CodeRef{Kind: "op", Op: 0}, UA: 1, Label: "peer",
+			Headers: acc.UpgradeHeaderSets()[n%len(acc.UpgradeHeaderSets())]}},
 		{K: "ws", Ws: &acc.Ws{Path: pa, Decoded: pd, Code: acc.CodeRef{Kind: "op", Op: 1}, UA: 2, Label: "control"}}}
 	it := Item{Kind: "relay", Attempt: map[string]string{"1": "peer", "2": "control"}}
 	k := r.Range(3, 5)
@@ -405,7 +445,9 @@ func genRelay(r *lib.Rng, n int, e *acc.Env, force int) Item {
 			ref = acc.CodeRef{Kind: "op", Op: 4}
 		}
 		ua := 3 + i
-		ops = append(ops, acc.Op{K: "ws", Ws: &acc.Ws{Path: esc, Decoded: dec, Code: ref, UA: ua, Label: p.label}})
+		hs := acc.UpgradeHeaderSets()
+		ops = append(ops, acc.Op{K: "ws", Ws: &acc.Ws{Path: esc, Decoded: dec, Code: ref, UA: ua, Label: p.label,
+			Headers: hs[r.Intn(len(hs))], Deflate: r.Chance(1, 4)}})
 		it.Attempt[strconv.Itoa(ua)] = p.label
 	}
 	it.H = &acc.Case{Name: name, T0: now, Ops: ops, Cfg: e.Cfg, Mode: "real"}
@@ -850,6 +892,17 @@ func work(a lib.Args) {
 	}
 	// relay stream: wall clock, several cases at a time
 	acc.UseWallClock(true)
+	var entropyItem *Item
+	if a.Replay == "" {
+		// nothing else of this process talks to the relay yet: the failing random source hits exactly these requests
+		for try := 0; try < 3; try++ {
+			it := genEntropy(real, "c01-ent"+strconv.Itoa(try))
+			if runRelay(&it, real, try) || try == 2 {
+				entropyItem = &it
+				break
+			}
+		}
+	}
 	boundary := make(chan string, 1)
 	if a.Replay == "" {
 		go func() { boundary <- observeBoundary(real) }()
@@ -904,6 +957,9 @@ func work(a lib.Args) {
 	}
 	wg.Wait()
 	items = append(items, expiryItems...)
+	if entropyItem != nil {
+		items = append(items, *entropyItem)
+	}
 	// path stream
 	for i := range items {
 		it := &items[i]
